@@ -19,7 +19,7 @@ import (
 	"verif/internal/model"
 )
 
-const rule = "cases: option maps whose host is drawn from a grammar {IPv4 literal, IPv6 literal in every compression form, embedded IPv4, v4-mapped, with zone, with port, bracketed, leading zeros, surrounding whitespace, hostname, empty, 255 bytes, arbitrary bytes}, port from {canonical decimal, leading zeros, +/- sign, spaces, 0, 65535, 65536, 2^63, 2^64, hex, empty}, caps ending / not ending in 6, keys that are prefixes or extensions of the well-known keys (hos, host1, s1, ii, Host), s / i values of 31/32/33 and 15/16/17 bytes; each map through NewRouterAddress, through model-encode -> ReadRouterAddress, and through an encoding whose pairs are not in key order (reversed, rotated). Oracle: own IP-literal recogniser (cross-checked with net/netip; a disagreement between the two oracles makes the case inconclusive and is counted) - Host() succeeds <=> literal and returns that address; HasValidHost <=> Host() ok; IPVersion = family when the host is valid; Port() succeeds <=> optional sign + decimal digits with value 1..65535 and returns the canonical decimal; HasValidPort <=> Port() ok; GetOption(k) = lookup of exactly k; StaticKey / InitializationVector ok <=> 32 / 16 bytes. Non-trivial: host or port option present; distinct by (host, port, caps, path)."
+const rule = "cases: option maps whose host is drawn from a grammar {IPv4 literal, IPv6 literal in every compression form, embedded IPv4, v4-mapped, with zone, with port, bracketed, leading zeros, surrounding whitespace, hostname, empty, 255 bytes, arbitrary bytes}, port from {canonical decimal, leading zeros, +/- sign, spaces, 0, 65535, 65536, 2^63, 2^64, hex, empty}, caps ending / not ending in 6, keys that are prefixes or extensions of the well-known keys (hos, host1, s1, ii, Host), s / i values of 31/32/33 and 15/16/17 bytes; each map through NewRouterAddress, through model-encode -> ReadRouterAddress, and through an encoding whose pairs are not in key order (reversed, rotated). For half of the constructed addresses the options are then replaced through the exported field and every accessor is checked again against the options in effect. Oracle: own IP-literal recogniser (cross-checked with net/netip; a disagreement between the two oracles makes the case inconclusive and is counted) - Host() succeeds <=> literal and returns that address; HasValidHost <=> Host() ok; IPVersion = family when the host is valid; Port() succeeds <=> optional sign + decimal digits with value 1..65535 and returns the canonical decimal; HasValidPort <=> Port() ok; GetOption(k) = lookup of exactly k; StaticKey / InitializationVector ok <=> 32 / 16 bytes. Non-trivial: host or port option present; distinct by (host, port, caps, path)."
 
 func TestMain(m *testing.M) { ev.Main(m, "C17", rule) }
 
@@ -338,6 +338,50 @@ func check(c Case, r *ev.Rec) error {
 	}
 	if err := checkAddr("constructor", *a1, c, r); err != nil {
 		return err
+	}
+	// history: the options of a value that has answered once are replaced through the
+	// exported field; every accessor must answer from the options in effect
+	if len(c.Opts)%2 == 1 {
+		c2 := Case{}
+		m2 := map[string]string{}
+		for _, kv := range c.Opts {
+			k, v := string(ev.UnH(kv[0])), string(ev.UnH(kv[1]))
+			switch k {
+			case "host":
+				if _, _, ok := ipLiteral(v); ok {
+					v = "example.i2p"
+				} else {
+					v = "10.9.8.7"
+				}
+			case "port":
+				if _, ok := portOracle(v); ok {
+					v = "0"
+				} else {
+					v = "4444"
+				}
+			case "caps":
+				v += "6"
+			case "s", "i":
+				v += "x"
+			}
+			if len(v) > 255 {
+				v = v[:255]
+			}
+			m2[k] = v
+			c2.Opts = append(c2.Opts, [2]string{ev.H([]byte(k)), ev.H([]byte(v))})
+		}
+		if _, has := m2["host"]; !has {
+			m2["host"] = "2001:db8::7"
+			c2.Opts = append(c2.Opts, [2]string{ev.H([]byte("host")), ev.H([]byte("2001:db8::7"))})
+		}
+		mp2, err := data.GoMapToMapping(m2)
+		if err == nil {
+			a1.TransportOptions = mp2
+			if err := checkAddr("after the options of a used value were replaced", *a1, c2, r); err != nil {
+				return err
+			}
+			r.Class("options-replaced-after-use")
+		}
 	}
 	// parser path
 	enc := model.RouterAddr{Cost: 5, Style: []byte("NTCP2"), Options: pairs}.Encode()
